@@ -5,6 +5,7 @@ import HkModel.Drive.Route
 import HkModel.Drive.Auth
 import HkModel.Drive.Signing
 import HkModel.Drive.ApiAuth
+import HkModel.Drive.Mcp
 /-! `hkdriver <mode>`: reads protocol lines on stdin, answers one line per input line. -/
 open Hk
 
@@ -50,6 +51,7 @@ def main (args : List String) : IO UInt32 := do
   | ["ingress"] => runPure DriveRoute.processLine
   | ["signing"] => runPure DriveSigning.processLine
   | ["apiauth"] => runPure DriveApiAuth.processLine
+  | ["mcp"] => runPure DriveMcp.processLine
   | ["auth"] =>
     let st ← loopAuth stdin stdout {}
     stdout.putStrLn ("SUMMARY {\"steps\":" ++ toString st.n ++ ",\"not_ok\":" ++ toString st.bad ++ "}")
